@@ -1,8 +1,9 @@
 """Layer 2 of C03 / C05 / C08: lemmas OVER THE CONTRACTS (none of this mentions code) that carry the per-function
 postconditions through arbitrary histories.  Every lemma is a first-order verification condition discharged by z3 for graphs of
 any size (sort Node uninterpreted); inductions over the DAG are rank inductions whose STEP is the VC (hypothesis assumed for
-the predecessors / the nearest stored ancestors, L-IND), inductions over the history are the invariant rule (initial state:
-nothing stored; every transition preserves J).
+the predecessors / the nearest stored ancestors), inductions over the history are the invariant rule (initial state: nothing
+stored; every transition preserves J).  The two rules themselves (L-IND, L-INV) are proved once and for all in Lean
+(lemmas/Induction.lean, thorough tier); instantiating them with the step VCs below is by hand.
 
 Store world w (what the contracts' store view talks about), per node n:
    reg(n), src(n)      n has a value store / it is a registry.source                       (static)
